@@ -348,6 +348,23 @@ func counterScenario(wk waitKind, start int, thorough bool, updaters ...[]counte
 	}
 }
 
+// counter2Waiters: two waiters of one kind must both be released by one change.
+func counter2Waiters(wk waitKind, start int, u []counterOp) *sched.Scenario {
+	return &sched.Scenario{Name: fmt.Sprintf("counter/2x%s/start%d", wk.name, start), Run: func() {
+		c := syncutils.NewCounter()
+		c.Set(start)
+		w1 := vrt.Spawn(func() { wk.wait(c) })
+		w2 := vrt.Spawn(func() { wk.wait(c) })
+		for _, o := range u {
+			o.do(c)
+		}
+		if wk.cond(c.Get()) {
+			w1.Join()
+			w2.Join()
+		}
+	}}
+}
+
 // ---- Stack waits ----
 
 func stackScenarios() []*sched.Scenario {
@@ -404,6 +421,40 @@ func stackScenarios() []*sched.Scenario {
 		if sum != 3 {
 			vrt.Fail("stack|elements-not-conserved", "two pops returned sum %d", sum)
 		}
+	}})
+	// two waiters with the same predicate that consume nothing: one state change must release both
+	out = append(out, &sched.Scenario{Name: "stack/2xWaitIsEmpty-Pop", Run: func() {
+		s := syncutils.NewStack[int]()
+		s.Push(1)
+		w1 := vrt.Spawn(func() { s.WaitIsEmpty() })
+		w2 := vrt.Spawn(func() { s.WaitIsEmpty() })
+		s.Pop()
+		w1.Join()
+		w2.Join()
+	}})
+	// waiters with different predicates share one condition variable: a size waiter must not swallow the wake-up of a PopOrWait
+	out = append(out, &sched.Scenario{Name: "stack/WaitSizeIsAbove+PopOrWait-Push", Run: func() {
+		s := syncutils.NewStack[int]()
+		always := func() bool { return true }
+		ws := vrt.Spawn(func() { s.WaitSizeIsAbove(1) })
+		wp := vrt.Spawn(func() {
+			if v, ok := s.PopOrWait(always); !ok || v != 1 {
+				vrt.Fail("stack|wrong-element", "PopOrWait returned %d,%v", v, ok)
+			}
+		})
+		s.Push(1)
+		wp.Join() // an element is available: PopOrWait must return
+		s.Push(2)
+		s.Push(3)
+		ws.Join()
+	}})
+	out = append(out, &sched.Scenario{Name: "stack/2xWaitSizeIsAbove-Push", Run: func() {
+		s := syncutils.NewStack[int]()
+		w1 := vrt.Spawn(func() { s.WaitSizeIsAbove(0) })
+		w2 := vrt.Spawn(func() { s.WaitSizeIsAbove(0) })
+		s.Push(1)
+		w1.Join()
+		w2.Join()
 	}})
 	out = append(out, &sched.Scenario{Name: "stack/WaitIsEmpty-Pop", Run: func() {
 		s := syncutils.NewStack[int]()
@@ -464,6 +515,11 @@ func main() {
 			counterScenario(wk, 2, true, []counterOp{opSet0, opInc}, []counterOp{opDec}, []counterOp{opInc}),
 		)
 	}
+	scs = append(scs,
+		counter2Waiters(waitKinds[0], 1, []counterOp{opDec}),
+		counter2Waiters(waitKinds[1], 2, []counterOp{opDec}),
+		counter2Waiters(waitKinds[2], 0, []counterOp{opInc}),
+	)
 	scs = append(scs, stackScenarios()...)
 	cli.Main(&cli.Property{
 		ID: "C17", Level: "model_checking", Scenarios: scs,
